@@ -150,3 +150,96 @@ pub proof fn lemma_copied_wrote(d0: Seq<u8>, d1: Seq<u8>, src: Seq<u8>, sp: int,
     requires copied(d0, d1, src, sp, dp, n)
     ensures wrote(d0, d1, src, sp, dp, n)
 { }
+
+/// single-bit form of `wrote`
+pub open spec fn wrote_bit(d0: Seq<u8>, d1: Seq<u8>, p: int, bit: bool) -> bool {
+    &&& d1.len() >= d0.len()
+    &&& forall|j: int| 0 <= j < d1.len() * 8 ==> #[trigger] bit_at(d1, j) ==
+          (if j == p { bit } else if j < d0.len() * 8 { bit_at(d0, j) } else { false })
+}
+
+/// b1 is b0 followed by zero bytes
+pub open spec fn grown(b0: Seq<u8>, b1: Seq<u8>) -> bool {
+    &&& b1.len() >= b0.len()
+    &&& forall|k: int| 0 <= k < b0.len() ==> b1[k] == b0[k]
+    &&& forall|k: int| b0.len() <= k < b1.len() ==> b1[k] == 0u8
+}
+
+pub proof fn lemma_zero_byte_bits(k: u8)
+    requires k < 8
+    ensures (0u8 & (0x80u8 >> k)) == 0
+{
+    assert((0u8 & (0x80u8 >> k)) == 0) by(bit_vector) requires k < 8;
+}
+
+pub proof fn lemma_grown_bits(b0: Seq<u8>, b1: Seq<u8>)
+    requires grown(b0, b1)
+    ensures forall|j: int| 0 <= j < b1.len() * 8 ==> #[trigger] bit_at(b1, j) == (if j < b0.len() * 8 { bit_at(b0, j) } else { false })
+{
+    assert forall|j: int| 0 <= j < b1.len() * 8 implies #[trigger] bit_at(b1, j) == (if j < b0.len() * 8 { bit_at(b0, j) } else { false }) by {
+        if j >= b0.len() * 8 {
+            lemma_zero_byte_bits((j % 8) as u8);
+        }
+    }
+}
+
+/// growing first and writing afterwards is a `wrote` relative to the buffer before growing
+pub proof fn lemma_wrote_after_grow(b0: Seq<u8>, b1: Seq<u8>, src: Seq<u8>, sp: int, dp: int, n: int)
+    requires grown(b0, b1)
+    ensures
+        forall|b2: Seq<u8>| #[trigger] wrote(b1, b2, src, sp, dp, n) && b2.len() == b1.len() ==> wrote(b0, b2, src, sp, dp, n),
+        forall|b2: Seq<u8>, bit: bool| #[trigger] wrote_bit(b1, b2, dp, bit) && b2.len() == b1.len() ==> wrote_bit(b0, b2, dp, bit),
+{
+    lemma_grown_bits(b0, b1);
+    assert forall|b2: Seq<u8>| #[trigger] wrote(b1, b2, src, sp, dp, n) && b2.len() == b1.len() implies wrote(b0, b2, src, sp, dp, n) by {
+        assert forall|j: int| 0 <= j < b2.len() * 8 implies #[trigger] bit_at(b2, j) ==
+            (if dp <= j < dp + n { bit_at(src, sp + (j - dp)) } else if j < b0.len() * 8 { bit_at(b0, j) } else { false }) by {
+            assert(bit_at(b1, j) == (if j < b0.len() * 8 { bit_at(b0, j) } else { false }));
+        }
+    }
+    assert forall|b2: Seq<u8>, bit: bool| #[trigger] wrote_bit(b1, b2, dp, bit) && b2.len() == b1.len() implies wrote_bit(b0, b2, dp, bit) by {
+        assert forall|j: int| 0 <= j < b2.len() * 8 implies #[trigger] bit_at(b2, j) ==
+            (if j == dp { bit } else if j < b0.len() * 8 { bit_at(b0, j) } else { false }) by {
+            assert(bit_at(b1, j) == (if j < b0.len() * 8 { bit_at(b0, j) } else { false }));
+        }
+    }
+}
+
+/// "exactly ceil(wp/8) bytes, padding bits zero"
+pub open spec fn tight_seq(b: Seq<u8>, wp: int) -> bool {
+    &&& b.len() == (wp + 7) / 8
+    &&& forall|j: int| wp <= j < b.len() * 8 ==> !#[trigger] bit_at(b, j)
+}
+
+pub proof fn lemma_tight_after_write(b0: Seq<u8>, wp: int, src: Seq<u8>, sp: int, n: int)
+    requires tight_seq(b0, wp), n >= 0, wp >= 0
+    ensures
+        forall|b2: Seq<u8>| #[trigger] wrote(b0, b2, src, sp, wp, n) && b2.len() == max_int(b0.len() as int, (wp + n + 7) / 8) ==> tight_seq(b2, wp + n),
+        forall|b2: Seq<u8>, bit: bool| #[trigger] wrote_bit(b0, b2, wp, bit) && b2.len() == max_int(b0.len() as int, (wp + 1 + 7) / 8) ==> tight_seq(b2, wp + 1),
+{
+    assert forall|b2: Seq<u8>| #[trigger] wrote(b0, b2, src, sp, wp, n) && b2.len() == max_int(b0.len() as int, (wp + n + 7) / 8) implies tight_seq(b2, wp + n) by {
+        assert forall|j: int| wp + n <= j < b2.len() * 8 implies !#[trigger] bit_at(b2, j) by {
+            if j < b0.len() * 8 { assert(!bit_at(b0, j)); }
+        }
+    }
+    assert forall|b2: Seq<u8>, bit: bool| #[trigger] wrote_bit(b0, b2, wp, bit) && b2.len() == max_int(b0.len() as int, (wp + 1 + 7) / 8) implies tight_seq(b2, wp + 1) by {
+        assert forall|j: int| wp + 1 <= j < b2.len() * 8 implies !#[trigger] bit_at(b2, j) by {
+            if j < b0.len() * 8 { assert(!bit_at(b0, j)); }
+        }
+    }
+}
+
+// component forms of the trait-level well-formedness predicates (trait default spec fns would be
+// overridable and therefore opaque in generic code; the sidecar macros $r_wf / $w_wf expand to these)
+pub open spec fn r_wf_c(bytes: Seq<u8>, pos: int, limit: int) -> bool {
+    0 <= pos <= limit <= bytes.len() * 8 && env_slice(bytes)
+}
+pub open spec fn w_wf_c(bytes: Seq<u8>, pos: int) -> bool {
+    0 <= pos <= bytes.len() * 8 && env_slice(bytes)
+}
+pub open spec fn w_len_after_c(growable: bool, len: int, pos: int, n: int) -> int {
+    if growable { max_int(len, (pos + n + 7) / 8) } else { len }
+}
+pub open spec fn w_room_c(growable: bool, len: int, pos: int, n: int) -> bool {
+    growable || pos + n <= len * 8
+}
